@@ -73,7 +73,7 @@ func genProgram(t *rapid.T, shared []string) (src string, interns int, reads boo
 		if len(shared) > 0 && rapid.IntRange(0, 2).Draw(t, "useShared") == 0 {
 			name = rapid.SampledFrom(shared).Draw(t, "shared")
 		}
-		switch rapid.IntRange(0, 11).Draw(t, "kind") {
+		switch rapid.IntRange(0, 12).Draw(t, "kind") {
 		case 0:
 			stmts = append(stmts, fmt.Sprintf("%s := %d", name, i))
 			interns++
@@ -114,6 +114,13 @@ func genProgram(t *rapid.T, shared []string) (src string, interns int, reads boo
 		case 10:
 			stmts = append(stmts, fmt.Sprintf("p%d := {a: 1}.bear({%s: m{.a}}).%s", i, name, name))
 			interns++
+		case 11:
+			// string operations that compile patterns: fresh valid and fresh invalid ones (whatever is memoised is written now)
+			pat := fresh(false)
+			stmts = append(stmts, rapid.SampledFrom([]string{
+				fmt.Sprintf("re%d := \"a%sb\".sub(\"%s\", \"-\")", i, pat, pat), fmt.Sprintf("re%d := 1.try.{|x| \"abc\".sub(\"(%s\", \"-\")}.err?", i, pat),
+				fmt.Sprintf("re%d := 1.try.{|x| \"abc\".match(\"[%s\")}.err?", i, pat), fmt.Sprintf("re%d := 1.try.{|x| \"abc\" / \"(?<%s\"}.err?", i, pat), fmt.Sprintf("re%d := \"x%sy\".match(\"%s\")", i, pat, pat),
+				fmt.Sprintf("re%d := (\"p%sq\" / \"%s\").len", i, pat, pat)}).Draw(t, "regex"))
 		default:
 			stmts = append(stmts, fmt.Sprintf("x%d := [1, 2, 3]@{|v| v * %d}.sum", i, i))
 		}
@@ -170,6 +177,28 @@ func runRound(in *interp.Interp, r *Round) (sig, detail string) {
 		}
 	}
 	return "", ""
+}
+
+// TestFirstImports: the first import of each module in the life of the process, made by many evaluations at once
+// (whatever an import caches is filled exactly then). It is the first test of the file, so nothing has imported before.
+func TestFirstImports(t *testing.T) {
+	vt.SkipIfReplay(t)
+	in := interp.Shared()
+	forms := []string{`import("http")`, `import("dummy_native")`, `invite!("dummy_native"); message`, `1.try.{|x| import("dummy_native_wrong")}.err?`, `1.try.{|x| import("no_such_module")}.err?`, `import("dummy_native").keys`}
+	for round := 0; round < 3; round++ {
+		r := Round{}
+		for g := 0; g < 12; g++ {
+			r.Programs = append(r.Programs, "m := "+forms[(g+round)%len(forms)]+"\n`done`")
+		}
+		vt.Eval()
+		vt.Class("first imports of modules by 12 goroutines")
+		vt.NonTrivial(fmt.Sprint("imports", round), func() any { return r.Programs })
+		if sig, detail := runRound(in, &r); sig != "" {
+			vt.Record(sig, detail, r)
+			t.Fail()
+			return
+		}
+	}
 }
 
 func TestConcurrentEvaluations(t *testing.T) {
@@ -242,7 +271,7 @@ func TestSameNewSymbolEverywhere(t *testing.T) {
 // shared tables do only after they have grown (rehash, snapshot, eviction) happens while other evaluations run.
 func TestSymbolVolume(t *testing.T) {
 	in := interp.Shared()
-	vt.Check(t, vt.N(48, 400), func(rt *rapid.T) {
+	vt.Check(t, vt.N(32, 400), func(rt *rapid.T) {
 		r := Round{}
 		bulk := rapid.IntRange(2, 4).Draw(rt, "bulk programs")
 		per := rapid.IntRange(600, 1800).Draw(rt, "symbols per bulk program")
